@@ -324,16 +324,44 @@ def load_known():
 
 
 def write_replay(prop, seed, n, payload):
-    d = os.path.join(ROOT, "replays")
+    d = os.path.join(out_root(), "replays")
     os.makedirs(d, exist_ok=True)
     p = os.path.join(d, "%s-%d-%d.json" % (prop, seed, n))
     json.dump(payload, open(p, "w"), indent=1)
     return p
 
 
+def _cap(x, depth=0):
+    """evidence stays readable: long strings and long lists are cut (with a marker), whatever a run produced"""
+    if isinstance(x, str):
+        return x if len(x) <= 4000 else x[:4000] + "...[%d more chars]" % (len(x) - 4000)
+    if isinstance(x, list):
+        lim = 400 if depth == 0 else 60
+        y = [_cap(e, depth + 1) for e in x[:lim]]
+        if len(x) > lim:
+            y.append("...[%d more items]" % (len(x) - lim))
+        return y
+    if isinstance(x, dict):
+        items = list(x.items())
+        lim = 400
+        y = {k: _cap(v, depth + 1) for k, v in items[:lim]}
+        if len(items) > lim:
+            y["..."] = "%d more keys" % (len(items) - lim)
+        return y
+    return x
+
+
+def out_root():
+    """development runs against a mutant overlay (tools/seedrun.py) never touch the committed evidence/replays"""
+    if os.environ.get("VERIF_MUTANT_OVERLAY"):
+        return os.path.join(WORK, "mutant-runs")
+    return ROOT
+
+
 def write_evidence(prop, tier, seed, coverage, wall, violations, assumptions):
-    d = os.path.join(ROOT, "evidence")
+    d = os.path.join(out_root(), "evidence")
     os.makedirs(d, exist_ok=True)
+    coverage = {k: _cap(v) for k, v in coverage.items()}
     ev = {"property_id": prop, "tier": tier, "seed": seed, "level": "proof", "coverage": coverage,
           "assumptions": assumptions, "wall_s": round(wall, 2), "violations": violations}
     tmp = os.path.join(d, prop + ".json.tmp")
